@@ -73,8 +73,9 @@ Fixpoint remove_ev (e : ev) (l : list ev) : list ev :=
   end.
 Definition has_ev (e : ev) (l : list ev) : bool := existsb (fun x => ev_eqb x e) l.
 
-(* victim.proc.interrupt(Preempted(by=evictor.proc, usage_since=victim.usage_since, resource=self)) *)
-Record intr := mkIntr { ivictim : req; iby : req }.
+(* an eviction: victim removed from users; if its process is still alive (inotified):
+   victim.proc.interrupt(Preempted(by=evictor.proc, usage_since=victim.usage_since, resource=self)) *)
+Record intr := mkIntr { ivictim : req; iby : req; inotified : bool }.
 Definition intr_fields (i : intr) : nat * nat * option Z :=       (* (interrupted process, by, usage_since) *)
   (rproc (ivictim i), rproc (iby i), rsince (ivictim i)).
 
@@ -85,26 +86,29 @@ Record state := mkState {
   pending : list ev;           (* triggered and not yet processed events of this resource, in trigger order;
                                   every one of them is on the kernel's agenda for `now` *)
   granted : list nat;          (* ids of all Request events that have ever been triggered, in grant order *)
-  intrs : list intr;           (* interrupts issued so far *)
+  intrs : list intr;           (* evictions so far; those with inotified = true issued an Interruption *)
+  dead : list nat;             (* processes whose generator has ended (Process.is_alive is False) *)
   next_id : nat;
   now : Z }.
 
-Definition init (t0 : Z) : state := mkState [] [] [] [] [] [] 0 t0.
+Definition init (t0 : Z) : state := mkState [] [] [] [] [] [] [] 0 t0.
 
 Definition set_users (s : state) (u : list req) :=
-  mkState u (queue s) (getq s) (pending s) (granted s) (intrs s) (next_id s) (now s).
+  mkState u (queue s) (getq s) (pending s) (granted s) (intrs s) (dead s) (next_id s) (now s).
 Definition set_queue (s : state) (q : list req) :=
-  mkState (users s) q (getq s) (pending s) (granted s) (intrs s) (next_id s) (now s).
+  mkState (users s) q (getq s) (pending s) (granted s) (intrs s) (dead s) (next_id s) (now s).
 Definition set_getq (s : state) (g : list (nat * nat)) :=
-  mkState (users s) (queue s) g (pending s) (granted s) (intrs s) (next_id s) (now s).
+  mkState (users s) (queue s) g (pending s) (granted s) (intrs s) (dead s) (next_id s) (now s).
 Definition set_pending (s : state) (p : list ev) :=
-  mkState (users s) (queue s) (getq s) p (granted s) (intrs s) (next_id s) (now s).
+  mkState (users s) (queue s) (getq s) p (granted s) (intrs s) (dead s) (next_id s) (now s).
 Definition add_intr (s : state) (i : intr) :=
-  mkState (users s) (queue s) (getq s) (pending s) (granted s) (intrs s ++ [i]) (next_id s) (now s).
+  mkState (users s) (queue s) (getq s) (pending s) (granted s) (intrs s ++ [i]) (dead s) (next_id s) (now s).
+Definition add_dead (s : state) (p : nat) :=
+  mkState (users s) (queue s) (getq s) (pending s) (granted s) (intrs s) (p :: dead s) (next_id s) (now s).
 Definition bump_id (s : state) :=
-  mkState (users s) (queue s) (getq s) (pending s) (granted s) (intrs s) (S (next_id s)) (now s).
+  mkState (users s) (queue s) (getq s) (pending s) (granted s) (intrs s) (dead s) (S (next_id s)) (now s).
 Definition set_now (s : state) (t : Z) :=
-  mkState (users s) (queue s) (getq s) (pending s) (granted s) (intrs s) (next_id s) t.
+  mkState (users s) (queue s) (getq s) (pending s) (granted s) (intrs s) (dead s) (next_id s) t.
 
 (* ---- the scan loop shared by _trigger_put and _trigger_get --------------------------------------------
      idx = 0
@@ -137,7 +141,7 @@ Definition res_do_put (cap : nat) (s : state) (e : req) : state * bool * bool :=
     let e' := mkReq (rid e) (rproc e) (rprio e) (rtime e) (rpre e) (Some (now s)) in   (* usage_since = now *)
     (mkState (users s ++ [e']) (queue s) (getq s)
              (pending s ++ [EReq (rid e)])                                            (* event.succeed() *)
-             (granted s ++ [rid e]) (intrs s) (next_id s) (now s), true, true)
+             (granted s ++ [rid e]) (intrs s) (dead s) (next_id s) (now s), true, true)
   else (s, false, false).
 
 (* sorted(self.users, key=lambda e: e.key)[-1] *)
@@ -147,7 +151,12 @@ Definition worst (u : list req) : option req :=
   | w :: _ => Some w
   end.
 
-(* PreemptiveResource._do_put  (the test is `preempt.key > event.key`, i.e. event.key < preempt.key).
+Definition is_dead (s : state) (p : nat) : bool := existsb (Nat.eqb p) (dead s).
+
+(* PreemptiveResource._do_put  (the test is `preempt.key > event.key`, i.e. event.key < preempt.key):
+       self.users.remove(preempt)
+       if preempt.proc.is_alive:                      (the fix: commit of C06; a dead process cannot be interrupted)
+           preempt.proc.interrupt(Preempted(by=event.proc, usage_since=preempt.usage_since, resource=self))
    [active] = env.active_process: Process.interrupt raises RuntimeError when the victim is the active
    process (after the victim was already removed from users); that is the None below. *)
 Definition preempt_do_put (cap : nat) (active : option nat) (s : state) (e : req)
@@ -158,10 +167,12 @@ Definition preempt_do_put (cap : nat) (active : option nat) (s : state) (e : req
     | Some w =>
         if key_ltb (rkey e) (rkey w) then
           let s1 := set_users s (remove_id (rid w) (users s)) in
+          if is_dead s (rproc w) then Some (res_do_put cap (add_intr s1 (mkIntr w e false)) e)
+          else
           match active with
           | Some a => if a =? rproc w then None                 (* "A process is not allowed to interrupt itself." *)
-                      else Some (res_do_put cap (add_intr s1 (mkIntr w e)) e)
-          | None => Some (res_do_put cap (add_intr s1 (mkIntr w e)) e)
+                      else Some (res_do_put cap (add_intr s1 (mkIntr w e true)) e)
+          | None => Some (res_do_put cap (add_intr s1 (mkIntr w e true)) e)
           end
         else Some (res_do_put cap s e)
     end
@@ -177,7 +188,7 @@ Definition do_put (k : kind) (cap : nat) (active : option nat) (s : state) (e : 
 (* Resource._do_get:  users.remove(event.request) if present; event.succeed(); return True *)
 Definition do_get (s : state) (g : nat * nat) : option (state * bool * bool) :=
   Some (mkState (remove_id (snd g) (users s)) (queue s) (getq s) (pending s ++ [ERel (fst g)])
-                (granted s) (intrs s) (next_id s) (now s), true, true).
+                (granted s) (intrs s) (dead s) (next_id s) (now s), true, true).
 
 Definition trigger_put (k : kind) (cap : nat) (active : option nat) (s : state) : option state :=
   match scan (do_put k cap active) s [] (queue s) with
@@ -198,7 +209,8 @@ Inductive action :=
 | ACancel (p : nat) (r : nat)                  (* process p calls <request r>.cancel()   (also __exit__ with GeneratorExit) *)
 | AExit (p : nat) (r : nat)                    (* process p leaves `with <request r>`: __exit__ = cancel(), then resource.release(self) *)
 | AProcess (e : ev)                            (* the kernel's step() processes the triggered event e *)
-| AAdvance (t : Z).                            (* the clock moves to t *)
+| AAdvance (t : Z)                             (* the clock moves to t *)
+| AEnd (p : nat).                              (* the generator of process p ends (with or without having released) *)
 
 (* Release.__init__ / Get.__init__:  get_queue.append(self); callbacks.append(_trigger_put); _trigger_get(None) *)
 Definition release (s : state) (r : nat) : option state :=
@@ -232,6 +244,7 @@ Definition step (k : kind) (cap : nat) (s : state) (a : action) : option state :
         end
       else None
   | AAdvance t => Some (set_now s t)
+  | AEnd p => Some (add_dead s p)
   end.
 
 (* ---- admissible histories ----------------------------------------------------------------------------
@@ -241,15 +254,18 @@ Definition step (k : kind) (cap : nat) (s : state) (a : action) : option state :
      claim is made about it),
    - the kernel processes only events that are triggered and unprocessed,
    - the clock advances only when no triggered event of the resource is unprocessed (they are all
-     scheduled for `now`; C01), and it moves forward. *)
+     scheduled for `now`; C01), and it moves forward,
+   - a process that has ended does nothing any more.  (It may have ended holding a slot or queueing.) *)
 Definition adm (s : state) (a : action) : bool :=
   match a with
-  | ARequest p _ _ => forallb (fun r => negb (rproc r =? p)) (users s ++ queue s)
+  | ARequest p _ _ => forallb (fun r => negb (rproc r =? p)) (users s ++ queue s) && negb (is_dead s p)
   | ARelease _ => true
   | ACancel p r | AExit p r =>
-      existsb (Nat.eqb r) (granted s) || existsb (fun x => (rid x =? r) && (rproc x =? p)) (queue s)
+      (existsb (Nat.eqb r) (granted s) || existsb (fun x => (rid x =? r) && (rproc x =? p)) (queue s))
+      && negb (is_dead s p)
   | AProcess e => has_ev e (pending s)
   | AAdvance t => match pending s with [] => (now s <? t)%Z | _ => false end
+  | AEnd p => negb (is_dead s p)
   end.
 
 Fixpoint run (k : kind) (cap : nat) (s : state) (l : list action) : option state :=
@@ -297,7 +313,7 @@ Definition snap_ok (s : state) (o : snap) : bool :=
       (now s =? t)%Z && listnat_eqb (map rid (users s)) us && listnat_eqb (map rid (queue s)) qs
       && (length (users s) =? cnt) && listev_eqb (pending s) pe
       && (length (granted s) =? length tr) && subset_nat tr (granted s) && subset_nat (granted s) tr
-      && (length (intrs s) =? ni) && match getq s with [] => true | _ => false end
+      && (length (filter inotified (intrs s)) =? ni) && match getq s with [] => true | _ => false end
   end.
 
 Fixpoint replay (k : kind) (cap : nat) (s : state) (l : list (action * snap)) : option state :=
@@ -332,7 +348,7 @@ Fixpoint intrs_eqb (a : list intr) (b : list (nat * nat * option Z)) : bool :=
    every action, and it issued exactly the observed interrupts *)
 Definition agree (k : kind) (cap : nat) (t0 : Z) (l : list (action * snap)) (is : list (nat * nat * option Z)) : bool :=
   match replay k cap (init t0) l with
-  | Some s => intrs_eqb (intrs s) is
+  | Some s => intrs_eqb (filter inotified (intrs s)) is
   | None => false
   end.
 
@@ -358,6 +374,7 @@ Definition Ex (p r : Z) : action := AExit (zn p) (zn r).
 Definition Pq (i : Z) : action := AProcess (EReq (zn i)).      (* a Request event is processed *)
 Definition Pr (i : Z) : action := AProcess (ERel (zn i)).      (* a Release event is processed *)
 Definition Ad (t : Z) : action := AAdvance t.
+Definition En (p : Z) : action := AEnd (zn p).
 Definition mkev (x : bool * Z) : ev := if fst x then ERel (zn (snd x)) else EReq (zn (snd x)).
 Definition Sn (t : Z) (us qs : list Z) (cnt : Z) (pe : list (bool * Z)) (tr : list Z) (ni : Z) : snap :=
   (t, map zn us, map zn qs, zn cnt, map mkev pe, map zn tr, zn ni).
@@ -367,7 +384,8 @@ Definition agreeZ (k cap t0 : Z) (l : list (action * snap)) (is : list (nat * na
   agree (kind_of k) (zn cap) t0 l is.
 (* readable dump of a state for diagnosis *)
 Definition dump (s : state) :=
-  (now s, map rid (users s), map rid (queue s), pending s, granted s, map intr_fields (intrs s), next_id s).
+  (now s, map rid (users s), map rid (queue s), pending s, granted s,
+   map (fun i => (intr_fields i, inotified i)) (intrs s), dead s, next_id s).
 Definition diagZ (k cap t0 : Z) (l : list (action * snap)) :=
   match first_bad (kind_of k) (zn cap) (init t0) 0 l with
   | None => None
